@@ -549,6 +549,8 @@ func report(e *Engine, spec *PropSpec, r *propResult, tier string, seed int, wal
 		"solver_secs_sum":          solverSecs,
 		"solver_secs_max":          maxSecs,
 		"slowest":                  slowest(r.owned, 8),
+		"solver_secs_max_query":    maxQuerySecs(r.owned),
+		"needed_second_solver":     secondSolver(r.owned),
 		"functions_verified":       len(r.reports),
 		"functions_with_written_contract": nContract,
 		"functions":                funcs,
@@ -937,6 +939,30 @@ func labelledContractObligations(prop, tier string) []emitObl {
 	}
 	if len(res.owned) == 0 {
 		out = append(out, emitObl{Name: "POST:" + prop + ":contracts-present", Props: []string{prop}, OK: false, Detail: "no labelled postcondition of " + prop + " was generated"})
+	}
+	return out
+}
+
+// maxQuerySecs: the longest single solver query among the obligations (margin to the per-query budget).
+func maxQuerySecs(obls []*Obligation) float64 {
+	m := 0.0
+	for _, o := range obls {
+		for _, in := range o.Instances {
+			if in.Res.Secs > m {
+				m = in.Res.Secs
+			}
+		}
+	}
+	return m
+}
+
+// secondSolver: obligations that the first back end did not decide within its 2 s (watch list for flakiness).
+func secondSolver(obls []*Obligation) []string {
+	var out []string
+	for _, o := range obls {
+		if strings.Contains(o.Backend, "cvc5") || strings.Contains(o.Backend, "z3-5") {
+			out = append(out, o.Name+" ("+o.Backend+")")
+		}
 	}
 	return out
 }
